@@ -126,8 +126,8 @@ def rec_spec(rng):
     return gram.Spec(classes, 0, considered)
 
 
-def one(h: Harness, spec, limit):
-    b = gram.build(spec)
+def one(h: Harness, spec, limit, b=None):
+    b = b if b is not None else gram.build(spec)
     try:
         g = b.extract()
     except Exception:  # noqa: BLE001
@@ -144,9 +144,12 @@ def one(h: Harness, spec, limit):
             progs = set()
             n = 0
             try:
-                for script, v in enumerate_scripts(make, limit=limit):
+                for script, v in enumerate_scripts(make, limit=limit, lift=True):
                     n += 1
                     progs.add(sx(zero_meta(gram.canon(v, b))))
+                    if n <= 120:
+                        # draw by draw against the model's creation (the first decision sequences of every tree)
+                        h.agree(f"create_genotype[{kind}]", ["create", line_spec, [kind, d], script], ["ok", gram.canon(v, b)])
             except InfraError:
                 # the decision tree is too large to enumerate: the programs reached so far are still judged
                 # for membership in the bounded language (level B); completeness is not
@@ -228,6 +231,9 @@ def corpus():
         # size-refined lists whose elements are refined themselves / are lists
         gram.Spec([C("A0", True, None), C("Bag", False, 0, [("xs", ("ann", ("list", ("ann", "int", ("intRange", 0, 2))), ("listSize", 1, 2)))]),
                    C("Grid", False, 0, [("rows", ("ann", ("list", ("ann", ("list", "bool"), ("listSize", 1, 1))), ("listSize", 1, 2)))])], 0, [1, 2]),
+        # a list of a UNION is the production's only way back to the start symbol (recursion analysis must look inside)
+        gram.Spec([C("A0", True, None), C("Lit", False, 0, []),
+                   C("Call", False, 0, [("args", ("ann", ("list", ("union", ("cls", 1), ("cls", 2))), ("listSize", 1, 2)))])], 0, [1, 2]),
         # possibly-empty list at the depth frontier (the open finding's witness)
         gram.Spec([C("A0", True, None), C("L", False, 0, []),
                    C("P", False, 0, [("xs", ("ann", ("list", ("cls", 0)), ("listSize", 0, 1))), ("k", ("ann", "int", ("intRange", 0, 1)))])], 0, [1, 2]),
@@ -237,9 +243,34 @@ def corpus():
     ]
 
 
+def retargeted(h: Harness, limit):
+    """the documented way of re-parameterising a grammar (assign a new declared type to `Cls.__init__.__annotations__[f]`,
+    extract again): the second grammar's bounded language is the one of the NEW declarations"""
+    C = gram.ClassSpec
+    spec = gram.Spec([C("A0", True, None), C("K", False, 0, [("k", ("ann", "int", ("intRange", 0, 2))), ("s", ("ann", "str", ("varRange", ["x", "y"])))]),
+                      C("W", False, 0, [("e", ("cls", 0)), ("n", ("ann", "int", ("intList", [7, 9])))])], 0, [1, 2])
+    b = gram.build(spec)
+    g = b.extract()
+    # use the first grammar (creation walks every class's declared arguments)
+    from core import ScriptedSource
+    src = ScriptedSource([1, 0, 1, 0, 1, 0, 0, 0])
+    TreeBasedRepresentation(g, synth.make_decider("grow", 3, src, g)).create_genotype(src)
+    for (ci, fn, new) in ((1, "k", ("ann", "int", ("intRange", 5, 6))), (1, "s", ("ann", "str", ("varRange", ["p"]))), (2, "n", ("ann", "int", ("intRange", 1, 2)))):
+        fields = spec.classes[ci].fields
+        j = next(i for i, (n_, _) in enumerate(fields) if n_ == fn)
+        fields[j] = (fn, new)
+        pt = gram.py_type(new, b.classes)
+        b.classes[ci].__init__.__annotations__[fn] = pt
+        b.classes[ci].__annotations__[fn] = pt
+        gram._collect_tymap(new, pt, b.tymap)
+    h.count("retargeted-grammars")
+    one(h, spec, limit, b=b)
+
+
 def run(h: Harness):
     rng = h.rng
     limit = h.n(1500, 8000)
+    retargeted(h, limit)
     for spec in corpus():
         one(h, spec, limit)
     for i in range(h.n(10, 50)):
